@@ -1,4 +1,4 @@
-// verif:properties C10
+// verif:properties C10 C04
 package uhppote
 
 import (
@@ -68,3 +68,62 @@ func c10Sockets(k int) {
 func VerifC10_Sockets1()   { c10Sockets(1) }
 func VerifC10_Sockets2()   { c10Sockets(2) }
 func VerifC10_T_Sockets3() { c10Sockets(3) }
+
+// Quit while an event is still being delivered: the application's OnEvent is slow (it blocks until a gate
+// opens one second later), a second event arrives meanwhile and waits at the pipe, then the quit signal comes.
+// Listen must neither panic nor lose the shutdown: it returns once the reader has finished, both events are
+// delivered, nothing is left behind.  (One schedule: goroutines that sleep are parked on a timer and woken in
+// time order when the main thread blocks.)
+type c10SlowListener struct {
+	c10Listener
+	gate chan struct{}
+	n    int
+}
+
+func (l *c10SlowListener) OnEvent(s *types.Status) {
+	l.n++
+	if l.n == 1 {
+		<-l.gate
+	}
+	l.c10Listener.OnEvent(s)
+}
+
+func c10QuitInFlight() {
+	verifZone(0)
+	verifTimedSleeps()
+	dgs := [][]byte{nondetBuffer("dg.0", 96), nondetBuffer("dg.1", 96)}
+	verifAssume(c10Class(dgs[0]) == 1 && c10Class(dgs[1]) == 1)
+	t0 := verifClock()
+	verifNetFaults(false)
+	verifNetScript(dgs)
+	a0, a1 := verifNetArrival(0)-t0, verifNetArrival(1)-t0
+	verifAssume(a0 >= int64(50*time.Millisecond) && a0 <= int64(100*time.Millisecond) && a1 >= a0+int64(50*time.Millisecond) && a1 <= int64(250*time.Millisecond))
+	lport := uint16(nondetU16("listen.port"))
+	verifAssume(lport >= 20000 && lport < 30000)
+	verifNetPlayTo(int(lport))
+	u := &uhppote{
+		devices:    map[uint32]Device{},
+		driver:     &ut0311{listenAddr: netip.AddrPortFrom(netip.AddrFrom4([4]byte{127, 0, 0, 1}), lport), timeout: time.Second},
+		listenAddr: types.ListenAddrFrom(netip.AddrFrom4([4]byte{127, 0, 0, 1}), lport),
+	}
+	l := &c10SlowListener{gate: make(chan struct{})}
+	q := make(chan os.Signal, 1)
+	go func() {
+		time.Sleep(500 * time.Millisecond) // both datagrams have arrived; the first event is still in OnEvent
+		q <- os.Interrupt
+	}()
+	go func() {
+		time.Sleep(1500 * time.Millisecond)
+		close(l.gate)
+	}()
+	err := u.Listen(l, q)
+	verifAssert(err == nil, "Listen: returns without error when quit arrives while an event is being delivered")
+	verifAssert(verifGoroutines() == 0, "Listen: no goroutine is left behind after such a shutdown")
+	verifAssert(len(l.log) == 2 && l.log[0].kind == 'E' && l.log[1].kind == 'E', "Listen: events received before the quit are delivered")
+	verifReach("c10.quit.inflight")
+}
+
+func VerifC10_QuitWithEventInFlight() { c10QuitInFlight() }
+
+// C04: shutting down while an event is in flight does not crash the library
+func VerifC04_ListenQuitWithEventInFlight() { c10QuitInFlight() }
